@@ -256,7 +256,8 @@ type RValue struct {
 	t    types.Type // nil: the invalid Value
 	addr *Val       // non-nil iff addressable (or a settable indirection)
 	v    Val        // value when not addressable
-	ro   bool       // obtained through an unexported field
+	ro   bool       // obtained through an unexported non-embedded field (sticky)
+	roE  bool       // is itself an unexported embedded field (not inherited by its fields)
 }
 
 // RType models the dynamic value behind a reflect.Type interface.
